@@ -93,7 +93,44 @@ fn legacy_word_line(ctx: &mut Ctx, n: usize, b: &[u8]) {
     ctx.line(&format!("word4\t{}\t{}\t{}\t{}\t{}", n, hex(&w), back, hex(b), rd));
 }
 
+// Types whose fixed-size parts sum past `usize::MAX`: eight bit vectors of 2^64 - 1 bits (2^61 bytes each).
+type UMaxBits = typenum::UInt<typenum::UInt<typenum::UInt<typenum::U2305843009213693951, typenum::B1>, typenum::B1>, typenum::B1>;
+type HugeBv = ssz::BitVector<UMaxBits>;
+type HugeTuple8 = (HugeBv, HugeBv, HugeBv, HugeBv, HugeBv, HugeBv, HugeBv, HugeBv);
+#[derive(ssz_derive::Encode, ssz_derive::Decode)]
+pub struct HugeStruct8 {
+    pub a: HugeBv,
+    pub b: HugeBv,
+    pub c: HugeBv,
+    pub d: HugeBv,
+    pub e: HugeBv,
+    pub f: HugeBv,
+    pub g: HugeBv,
+    pub h: HugeBv,
+}
+
+fn hugesum_line<T: Decode>(ctx: &mut Ctx, what: &str, bytes: &[u8]) {
+    let r = match catch(|| T::from_ssz_bytes(bytes).is_ok()) {
+        Caught::Val(true) => "ok",
+        Caught::Val(false) => "err",
+        Caught::Panic => "panic",
+    };
+    ctx.line(&format!("hugesum\t{}\t{}\t{}", what, hex(bytes), r));
+}
+
+/// Decoding three bytes as a type whose fixed-size part does not fit `usize`.
+pub fn hugesums(ctx: &mut Ctx) {
+    hugesum_line::<HugeTuple8>(ctx, "tuple8", &[1, 2, 3]);
+    hugesum_line::<Vec<HugeTuple8>>(ctx, "vec-of-tuple8", &[1, 2, 3]);
+    hugesum_line::<Option<HugeTuple8>>(ctx, "option-of-tuple8", &[1, 2, 3]);
+    hugesum_line::<HugeStruct8>(ctx, "struct8", &[1, 2, 3]);
+    hugesum_line::<Vec<HugeStruct8>>(ctx, "vec-of-struct8", &[1, 2, 3]);
+}
+
 pub fn helpers(ctx: &mut Ctx, count: usize) {
+    if ctx.shard.0 == 0 {
+        hugesums(ctx);
+    }
     roff_line(ctx, &[]);
     sunion_line(ctx, &[]);
     for a in 0..=255u8 {
